@@ -464,7 +464,10 @@ def run(chk):
     chk.rule('C15.H', 'thin wrappers return / perform exactly the host operation (reference model by construction)', floor=20)
     chk.rule('C15.D', 'optional arguments defaulted by `is None`, never by `or`', floor=4)
     chk.assumptions += ['host list / dict / str operations are the reference sequence / map / string model; value_args_validate is applied first (C15.M)']
-    chk.guard('C15.V', check_failure_values, chk)
+    # the failure-value read-back (declared vs raised vs documented, counted per site): the evaluation runs every function on invalid calls and compares the documented failure value
+    chk.readback(ref_ok)('C15.V', check_failure_values, chk)
+    if ref_ok:
+        chk.floors.pop('C15.V', None)
     chk.guard('C15.M', check_validate_before_mutate, chk)
     chk.guard('C15.B', check_bounds, chk)
     # shape read-backs of the same contracts: advisory once the evaluation C15.R decided positively
